@@ -1,7 +1,9 @@
 """registry of implementation-side drivers (name, harness sources, build kwargs)"""
 MAIN_SOURCES = ['drv_main.cc', 'ops_base64.cc', 'ops_mime.cc', 'ops_net.cc', 'ops_headers.cc', 'ops_cookie.cc', 'ops_parser.cc', 'ops_router.cc', 'ops_async.cc']
 SCHED_SOURCES = ['drv_sched.cc']
+LIVE_SOURCES = ['drv_live.cc']
 ALL = [
     ('drv_main', MAIN_SOURCES, {}),
     ('drv_sched', SCHED_SOURCES, {}),
+    ('drv_live', LIVE_SOURCES, {}),
 ]
